@@ -372,6 +372,43 @@ except ValueError as e:
 print('solved', es.TimeSeries['x']); sys.exit(0)
 '''
 
+def float_error_outcomes():
+    """Arithmetic errors that only binary floating point has (overflow of ** / exp, a complex result of a fractional power of a negative number), in a
+    simultaneous and in a decorative equation, persistent from period 1 or appearing in period 2: solving must stop with a convergence / value error and
+    leave every series with the same length (enumerated outcome checks: the error comes from C-level float arithmetic, there is no symbolic input)."""
+    from sfc_models.equation_solver import EquationSolver
+    blocks = {
+        'overflow-power-simultaneous': "x = x**2 + 2.\nMaxTime = 2",
+        'overflow-exp-simultaneous': "x = exp(x) + 2.\nMaxTime = 2",
+        'overflow-power-decorative': "y = 0.5*y + 40.\nd = 10.**(y*y)\nMaxTime = 2",
+        'overflow-second-period': "y = LY + 400.\nLY = y(k-1)\nd = exp(y)\nMaxTime = 3",
+        'complex-power-simultaneous': "x = (0-2.)**0.5\nMaxTime = 2",
+        'complex-power-decorative': "y = 0.5*y - 3.\nd = y**0.5\nMaxTime = 2",
+        'complex-second-period': "y = 10. - 8.*k\nz = y**0.5 + 0*z\nMaxTime = 3",
+    }
+    out = []
+    for name, text in sorted(blocks.items()):
+        for red in (True, False):
+            es = EquationSolver(text, run_equation_reduction=red)
+            err = None
+            try:
+                es.SolveEquation()
+            except ValueError as e:
+                err = e
+            except Exception as e:
+                out.append((name, red, False, 'raises %s: %s (neither a convergence nor a value error)' % (type(e).__name__, e)))
+                continue
+            lens = {v: len(es.TimeSeries[v]) for v in es.TimeSeries if v not in ('k',)}
+            if err is None:
+                cx = {v: x for v in es.TimeSeries for x in es.TimeSeries[v] if isinstance(x, complex)}
+                out.append((name, red, False, 'reported as solved%s' % ('; complex values stored for %r' % sorted(cx) if cx else '')))
+            elif len(set(lens.values())) != 1:
+                out.append((name, red, False, 'raises %s but leaves series of unequal length %r' % (type(err).__name__, lens)))
+            else:
+                out.append((name, red, True, type(err).__name__))
+    return out
+
+
 REPLAY_DECL = '''
 import sys
 from vf.props.c11 import invalid_declarations
@@ -398,6 +435,7 @@ def run(tier, seed):
                   'name and sector code; market without / with ambiguous suppliers (goods and labour); cross-currency flow and cross-currency supplier without external sector; each model-level '
                   'scenario also with another model started / half built / built-and-solved after every one of its construction calls'}
     chk.assumptions = ['sweep count is read from the public step trace (TraceStep)', 'TimeSeriesHolder.GenerateCSVtext stubbed to "" in E2 runs']
+    chk.bounds['float-only arithmetic errors'] = 'overflow of ** / exp and complex results of fractional powers, in simultaneous and decorative equations, from period 1 or 2, reduction on/off: 14 enumerated outcome checks'
     chk.outside = ['contraction => success for more than one simultaneous variable (the property states up to 12): path count grows as sweeps^n - not reached, not claimed',
                    'domain errors of math functions (need float arguments)']
     for st, o in pmap(nc_case, ncs):
@@ -443,6 +481,14 @@ def run(tier, seed):
             chk.violation('decl:' + label, 'invalid declaration %s: %s' % (label, 'accepted' if exc is None else 'raised %s but numbers were produced' % exc),
                           REPLAY_DECL % dict(label=label))
     chk.distinct |= {('decl', l) for l, _, _ in decl}
+    for name, red, ok, detail in float_error_outcomes():
+        chk.obligations += 1
+        chk.count('float_error_outcome_checks')
+        if ok:
+            chk.discharged += 1
+        else:
+            chk.violation('float-error:%s' % name, 'block %s (reduction %s): %s' % (name, 'on' if red else 'off', detail),
+                          'import sys\nfrom vf.props.c11 import float_error_outcomes\nr = [t for t in float_error_outcomes() if t[0] == %r and t[1] == %r][0]\nprint(r)\nsys.exit(0 if r[2] else 1)\n' % (name, red))
     chk.sample({'harness': 'enumerated invalid declarations (no numeric input: outcome checks, not solver-decided)', 'cases': len(decl),
                 'examples': [d for d in decl if not d[0].startswith(('variable-name', 'token'))]}, cap=20)
     chk.exhaustive = True
